@@ -1,6 +1,7 @@
 package c02
 
 import (
+	"verifharness/fw"
 	"verifharness/tree"
 	"verifharness/xp"
 
@@ -74,7 +75,20 @@ func (g *gen) operand() *xp.E {
 		return xp.Num([]string{"1", "42", "0", "1.5", "007", "9223372036854775808", "18446744073709551615", "10000000000000000000", "4294967296", "99999999999999999999999", "9007199254740993", "0.000001"}[g.pick(12, "num")])
 	case 2:
 		// function result over literals / numbers / one operand path
-		switch g.pick(6, "fn") {
+		switch g.pick(7, "fn") {
+		case 6:
+			// a function result whose argument holds a comparison of its own
+			if fw.Known("c02.comparison-inside-predicate-operand") {
+				return xp.Call("string", xp.PathE(g.operandPath(true)))
+			}
+			switch g.pick(3, "innercmp") {
+			case 0:
+				return xp.Call("boolean", xp.Bin("=", xp.Lit("a"), xp.Lit("a")))
+			case 1:
+				return xp.Call("not", xp.Bin("=", xp.PathE(g.operandPath(false)), xp.Lit("y")))
+			default:
+				return xp.Call("string", xp.Bin("=", xp.Num("1"), xp.Num("1")))
+			}
 		case 4:
 			return xp.Call("concat", xp.PathE(g.operandPath(true)), xp.PathE(g.operandPath(true)))
 		case 5:
